@@ -2,6 +2,9 @@
 # usage: try_mutant.sh <patch.diff> <PROP> [PROP...]
 # applies the patch to /repo, runs the named quick checks, reverts. Prints one line per check.
 patch=$(realpath "$1"); shift
+# one user of /repo at a time
+exec 9>/verif/scratch/repo.lock
+flock 9
 cd /repo || exit 2
 if ! git diff --quiet; then echo "/repo has uncommitted changes"; exit 2; fi
 git apply "$patch" || { echo "patch does not apply"; exit 2; }
